@@ -72,8 +72,10 @@ def with_hands(k):
             for i, o in enumerate(observers):
                 if SEATS[i] is p:
                     avail.append([ids(o.hand), led, ids(o.current_available_cards_in_hand())])
-                if p is env.dummy and SEATS[i] is env.declarer and o.dummy_hand is not None:
-                    avail.append([ids(o.dummy_hand), led, ids(o.current_available_cards_in_dummy_hand())])
+                if p is env.dummy and SEATS[i] is not env.dummy and o.dummy_hand is not None:
+                    # every seat that sees dummy (declarer who plays it, and both defenders): the set offered from dummy's hand
+                    # must be the follow-suit set of dummy's REAL remaining hand
+                    avail.append([ids(env.hands[env.dummy]), led, ids(o.current_available_cards_in_dummy_hand())])
         if k.get('random_play'):
             ch = RandomPlay().play(set(hand), env)
             choices.append([ids(hand), led, int(ch)])
